@@ -1207,10 +1207,46 @@ func c28FinalVerdict(c *Ctx) {
 	if fn == nil || fHosts == nil || fVpn == nil {
 		return
 	}
-	hi := fn.Params[1]
-	loops := findRangeLoops(fn, func(v ssa.Value) bool {
-		return loadsField(v, fVpn) && derivesFrom(v, sliceLocal, func(x ssa.Value) bool { return x == ssa.Value(hi) })
-	})
+	root := fn
+	hi := ssa.Value(fn.Params[1])
+	loops := fix4VpnLoops(fn, hi, fVpn)
+	// the loop (and with it the verdict) may have been extracted into a private helper of unlockedDeleteHostInfo that is handed the
+	// tunnel: the rule is then decided inside that helper, and unlockedDeleteHostInfo must return what the helper returned
+	var via *ssa.Call
+	if len(loops) == 0 {
+		funcs := c.moduleFuncs()
+		fam := fix4Family(c, funcs, fix4BuildCallGraph(funcs), root)
+		type cand struct {
+			call *ssa.Call
+			h    *ssa.Function
+			p    ssa.Value
+			l    []loopInfo
+		}
+		var cands []cand
+		eachInstr(root, func(in ssa.Instruction) {
+			call, ok := in.(*ssa.Call)
+			if !ok {
+				return
+			}
+			h := call.Common().StaticCallee()
+			if h == nil || h == root || !fam[h] || h.Blocks == nil {
+				return
+			}
+			for k, a := range callArgs(call) {
+				if (a == hi || stripValue(a) == hi) && k < len(h.Params) {
+					if l := fix4VpnLoops(h, h.Params[k], fVpn); len(l) > 0 {
+						cands = append(cands, cand{call, h, h.Params[k], l})
+					}
+					break
+				}
+			}
+		})
+		if len(cands) == 1 {
+			fn, hi, loops, via = cands[0].h, cands[0].p, cands[0].l, cands[0].call
+			c.Funcs[fn.String()] = true
+			c.Note("C28.final: the per-address loop of unlockedDeleteHostInfo is in its private helper %s", fnName(fn))
+		}
+	}
 	if len(loops) != 1 {
 		c.Unknown("C28.final", "unlockedDeleteHostInfo:loop", "per-address loop not found")
 		return
@@ -1241,6 +1277,15 @@ func c28FinalVerdict(c *Ctx) {
 	for _, b := range fn.Blocks {
 		if r, ok := b.Instrs[len(b.Instrs)-1].(*ssa.Return); ok && len(r.Results) == 1 && derivesFrom(retResult(r, 0), sliceLocal, func(x ssa.Value) bool { return x == ssa.Value(verdict) }) {
 			retOK = true
+		}
+	}
+	if via != nil && retOK {
+		// ... and unlockedDeleteHostInfo hands the helper's verdict on
+		retOK = false
+		for _, r := range fix4Returns(root) {
+			if len(r.Results) == 1 && derivesFrom(retResult(r, 0), sliceLocal, func(x ssa.Value) bool { return x == ssa.Value(via) }) {
+				retOK = true
+			}
 		}
 	}
 	c.Check(retOK, "C28.final", "unlockedDeleteHostInfo:returns-verdict", c.P.Pos(fn.Pos()), "the loop-carried verdict is what is returned", "the function does not return the per-address verdict")
